@@ -3,6 +3,7 @@ import Hive.Proofs.DerivedCounter
 import Hive.Proofs.DerivedSorted
 import Hive.Proofs.DerivedWG
 import Hive.Proofs.DerivedLocks
+import Hive.Proofs.DerivedCatalogue
 import Hive.Proofs.DerivedVar
 import Hive.Proofs.DerivedAsync
 import Hive.Proofs.DerivedEvict
@@ -359,29 +360,50 @@ example : ∃ c, Reach evSys (EV.init, [⟨[], [.event 3, .event 1]⟩, ⟨[], [
     c.1.trig = [1, 3] ∧ c.1.last = some 5 ∧ ∀ t ∈ c.2, t.finished = true :=
   ⟨_, runSched_reach _ _ [(0, 0), (0, 0), (1, 0), (2, 0), (1, 0), (2, 0), (2, 0)], by decide⟩
 
-/-! ## No deadlock: lock order over the composed scripts -/
+/-! ## No deadlock: lock order over scripts derived from the regenerated skeletons -/
 
-/-- **No combination of the C14 calls deadlocks** (at the level of the lock scripts of
-`Hive/Model/DerivedLocks.lean`): any number of goroutines, each making any sequence of writes to
-inputs with a derived object subscribed, subscriptions, unsubscriptions, SortedSet `Add` / `Delete` /
-reads / weight updates, WaitGroup and EvictionState calls, on any instances, under any schedule,
-never reaches a configuration in which some goroutine is unfinished and none can move.  The
-callback-execution locks are part of the scripts.  Hypothesis of the modelling: the derivation graph
-is acyclic and user callbacks on derived objects do not call back into the inputs. -/
-theorem C14_deadlock_free (callss : List (List Call)) (c : Cfg (List Lock) LT)
-    (hr : Reach lockSys ([], callss.map threadOf) c) : ¬ Deadlock lockSys (fun t => t.script = []) c :=
-  lock_order_deadlock_free callss c hr
+/-- **Every catalogue script respects the lock ranks**, for every assignment of concrete objects to its
+roles.  The scripts are *computed* (`Hive/Model/DerivedCatalogue.lean`, interpreter
+`Hive/Model/DerivedScripts.lean`) from the token lists of `Hive/Gen/C14_Skel.lean`, which is
+regenerated from the working tree on every run: a change of the order in which the code takes its
+locks changes the script this theorem is about.  Acquisitions that cannot block (`OnUpdate` taking the
+execution lock of the callback it just created) are part of the scripts as `fresh`, conditional ones
+(`LockExecution` by a writer, `MarkUnsubscribed`) as `acqIf`, internal leaf mutexes as class `leaf`. -/
+theorem C14_scripts_ranked (c : Scr.Call2) (i : Scr.Inst) :
+    Ranked2 [] (c.script i) ∧ TRanked [] c.template = true ∧ tDisciplined c.template = true :=
+  ⟨Scr.script_ranked c i, Scr.template_ranked c, Scr.template_disciplined c⟩
 
-/-- Every catalogue script respects the lock ranks. -/
-theorem C14_scripts_ranked (c : Call) : Ranked [] c.script := call_ranked c
+/-- **No combination of the C14 calls deadlocks**: any number of goroutines, each making any sequence
+of catalogue calls (writes to inputs of DerivedVariable 1–4 / InheritFrom / DerivedSet /
+SubtractReactive / Counter, constructions, subscriptions and unsubscriptions, SortedSet `Add` /
+`Delete` / reads / weight updates, WaitGroup `Add` / `Done`, EvictionState `Evict` / `EvictionEvent`)
+on any instances, under every schedule, never reaches a configuration in which some goroutine is
+unfinished and none can move.  Hypotheses: every subscription (fresh execution lock) is created by one
+call only and is not visible before (`hn`, `hv`); modelling assumptions: acyclic derivation graph, user
+callbacks on derived objects are opaque leaves, all locks exclusive. -/
+theorem C14_deadlock_free (vis0 : List Lock) (pool : List (List (Scr.Call2 × Scr.Inst)))
+    (hn : ((pool.map Scr.threadOf2).flatMap (fun t => freshOf t.script)).Nodup)
+    (hv : ∀ t ∈ pool.map Scr.threadOf2, ∀ l ∈ freshOf t.script, l ∉ vis0)
+    (c : Cfg LS2 LT2) (hr : Reach lockSys2 ({ held := [], visible := vis0 }, pool.map Scr.threadOf2) c) :
+    ¬ Deadlock lockSys2 (fun t => t.script = []) c :=
+  Scr.catalogue_deadlock_free vis0 pool hn hv c hr
 
-/-- Witness about `sortedSet.deleteSorted` as it was (unsubscribing under `s.mutex`): `Delete(e)` and
-a concurrent update of `e`'s weight reach a deadlock; the script violates the lock ranks.  Reproduced
-on the implementation by the `sortedrace` stress scenarios under the progress watchdog (before f29d8ff). -/
+/-- The generic theorem behind it: ranked scripts with fresh and conditional acquisitions never deadlock. -/
+theorem C14_ranked_deadlock_free (vis0 : List Lock) (ts0 : List LT2)
+    (h0 : ∀ t ∈ ts0, t.held = [] ∧ Ranked2 [] t.script) (hw : PoolWF vis0 ts0)
+    (c : Cfg LS2 LT2) (hr : Reach lockSys2 ({ held := [], visible := vis0 }, ts0) c) :
+    ¬ Deadlock lockSys2 (fun t => t.script = []) c :=
+  ranked2_deadlock_free vis0 ts0 h0 hw c hr
+
+/-- Witness about `sortedSet.deleteSorted` as it was (unsubscribing under `s.mutex`), derived with the
+same interpreter from the old token list: the script is not ranked, and `Delete(e)` with a concurrent
+update of `e`'s weight reaches a deadlock.  Reproduced on the implementation by the `sortedrace` stress
+scenarios under the progress watchdog (before f29d8ff). -/
 theorem C14_sorted_set_inversion_witness :
-    Deadlock lockSys (fun t => t.script = []) (runSched lockSys ([], inversionThreads) inversionSched) ∧
-    ¬ Ranked [] (sortedDeleteOld 0 7) :=
-  ⟨sorted_inversion_deadlock, sorted_delete_old_not_ranked⟩
+    Deadlock lockSys2 (fun t => t.script = [])
+      (runSched lockSys2 ({ held := [], visible := [⟨.inExec, 1⟩, ⟨.setExec, 0⟩] }, Scr.oldDeleteThreads) Scr.oldDeleteSched) ∧
+    TRanked [] (Scr.tSetApply Scr.sU (Scr.inV 50) Scr.sE Scr.tDeleteSortedOld) = false :=
+  ⟨Scr.old_delete_deadlock, Scr.old_delete_not_ranked⟩
 
 /-! ## Regenerated synchronisation skeletons
 
@@ -460,12 +482,6 @@ theorem C14_skeleton_derivedSet_inheritMutations : skel_derivedSet_inheritMutati
 theorem C14_skeleton_derivedSet_applyInheritedMutations : skel_derivedSet_applyInheritedMutations = [
   "lock s.readableSet.mutex", "defer unlock s.readableSet.mutex", "call s.value.Apply", "return"] := by decide
 
-/-- set.Apply (set_impl.go:50) -/
-theorem C14_skeleton_set_Apply : skel_set_Apply = [
-  "if{", "return", "}if", "lock s.mutex", "defer unlock s.mutex", "if{", "return", "}if", "for{",
-  "call registeredCallback.LockExecution", "if{", "call registeredCallback.Invoke",
-  "call registeredCallback.UnlockExecution", "}if", "}for", "return"] := by decide
-
 /-- readableSet.OnUpdate (set_impl.go:177) -/
 theorem C14_skeleton_readableSet_OnUpdate : skel_readableSet_OnUpdate = [
   "lock r.mutex", "call createdCallback.LockExecution", "defer call createdCallback.UnlockExecution",
@@ -519,11 +535,6 @@ theorem C14_skeleton_NewDerivedVariable4 : skel_NewDerivedVariable4 = [
   "call input1.Get", "call input2.Get", "call input3.Get", "return", "}func", "call d.Compute", "}func",
   "call input4.OnUpdate", "return", "}func", "return"] := by decide
 
-/-- set.Compute (set_impl.go:74) -/
-theorem C14_skeleton_set_Compute : skel_set_Compute = [
-  "lock s.mutex", "defer unlock s.mutex", "for{", "call registeredCallback.LockExecution", "if{",
-  "call registeredCallback.Invoke", "call registeredCallback.UnlockExecution", "}if", "}for", "return"] := by decide
-
 /-- readableSet.SubtractReactive (set_impl.go:204) -/
 theorem C14_skeleton_readableSet_SubtractReactive : skel_readableSet_SubtractReactive = [
   "func{", "func{", "call setArithmetic.Add", "return", "}func", "call s.Compute", "}func",
@@ -541,6 +552,34 @@ theorem C14_skeleton_sortedSet_addSorted : skel_sortedSet_addSorted = [
   "lock s.mutex", "defer unlock s.mutex", "func{", "return", "}func", "if{", "func{", "if{", "}else{",
   "lock s.mutex", "defer unlock s.mutex", "call s.elements.Get", "if{", "return", "}if", "}if",
   "call s.updatePosition", "}func", "call s.weightVariable(element).OnUpdate", "}if"] := by decide
+
+
+/-- set.Apply (set_impl.go:50) -/
+theorem C14_skeleton_set_Apply : skel_set_Apply = [
+  "if{", "return", "}if", "lock s.mutex", "defer unlock s.mutex", "helper apply", "if{", "return", "}if",
+  "for{", "call registeredCallback.LockExecution", "if{", "call registeredCallback.Invoke",
+  "call registeredCallback.UnlockExecution", "}if", "}for", "return"] := by decide
+
+/-- set.apply (set_impl.go:121) -/
+theorem C14_skeleton_set_apply : skel_set_apply = [
+  "lock s.readableSet.mutex", "defer unlock s.readableSet.mutex", "call s.value.Apply", "return"] := by decide
+
+/-- sortedSet.updatePosition (sorted_set_impl.go:187) -/
+theorem C14_skeleton_sortedSet_updatePosition : skel_sortedSet_updatePosition = [
+  "defer func{", "if{", "call s.heaviestElement.Set", "}else{", "if{", "call s.heaviestElement.Set",
+  "}if", "}if", "if{", "call s.lightestElement.Set", "}else{", "if{", "call s.lightestElement.Set",
+  "}if", "}if", "}func", "for{", "helper swap", "if{", "break", "}if", "}for", "if{", "for{",
+  "helper swap", "if{", "break", "}if", "}for", "}if", "return"] := by decide
+
+/-- sortedSet.swap (sorted_set_impl.go:227) -/
+theorem C14_skeleton_sortedSet_swap : skel_sortedSet_swap = [
+  "if{", "if{", "}if", "}if", "if{", "}if", "return"] := by decide
+
+/-- set.Compute (set_impl.go:74) -/
+theorem C14_skeleton_set_Compute : skel_set_Compute = [
+  "lock s.mutex", "defer unlock s.mutex", "helper apply", "for{",
+  "call registeredCallback.LockExecution", "if{", "call registeredCallback.Invoke",
+  "call registeredCallback.UnlockExecution", "}if", "}for", "return"] := by decide
 
 
 end Skeletons
